@@ -5,10 +5,11 @@ Read from the C source of the working tree on every run:
   * enum values: TickitTermCtl, TickitTermMouseMode, the xterm driver's private controls, TickitPenAttr,
     TickitPenSizePosition, TickitPenUnderline, TickitRunFlags, TickitCtl;
   * the sgr_onoff table and mode_for_mouse's constants;
-  * the await_started budget of setupterm;
+  * the await_started budget of setupterm; the default output buffer size of tickit_build;
   * three structural facts of the code that decide which variant of the model mirrors the tree
     (`Cfg`): does setctl_int(KEYPAD_APP) record the mode in the shadow, does tickit_term_resume send the
-    cached pen again, are values the program has set protected from DECRPM/DECRQSS replies that arrive later.
+    cached pen again, are values the program has set (cursor controls; the forced RGB8 capability) protected from
+    DECRPM/DECRQSS replies that arrive later.
 """
 import re
 
@@ -151,6 +152,13 @@ def run(ctx):
     if not m:
         bad("setupterm await")
 
+    # ---- the output buffer a toplevel instance gives a terminal it builds itself
+    body = func_body(tk, "tickit_build") or ""
+    m = re.search(r"if\s*\(\s*!\s*term_builder\s*\.\s*output_buffersize\s*\)\s*term_builder\s*\.\s*output_buffersize\s*=\s*(\d+)\s*;", body)
+    out.append(f"def top_default_bufsize : Nat := {int(m.group(1)) if m else 0}")
+    if not m:
+        bad("tickit_build output_buffersize")
+
     # ---- structural facts selecting the model variant
     body = func_body(xt, "setctl_int") or ""
     km = re.search(r"case\s+TICKIT_TERMCTL_KEYPAD_APP\s*:(.*?)(?:case\s|default\s*:)", body, re.S)
@@ -160,6 +168,8 @@ def run(ctx):
     body = func_body(xt, "on_modereport") or ""
     vm = re.search(r"case\s+25\s*:(.*?)break\s*;", body, re.S)
     replies_guarded = bool(vm and re.search(r"!\s*xd\s*->\s*initialised\s*\.\s*cursorvis", vm.group(1)))
+    body = func_body(xt, "on_decrqss") or ""
+    rgb8_guarded = bool(re.search(r"!\s*xd\s*->\s*initialised\s*\.\s*rgb8", body))
     body = func_body(xt, "chpen") or ""
     um = re.search(r"case\s+TICKIT_PEN_UNDER\s*:(.*?)break\s*;", body, re.S)
     under_safe = bool(um and re.search(r"!\s*xd\s*->\s*cap\s*\.\s*csi_sub_colon", um.group(1))
@@ -169,7 +179,8 @@ def run(ctx):
     out.append(f"def keypadRecorded : Bool := {'true' if keypad_recorded else 'false'}")
     out.append(f"def resumeResendsPen : Bool := {'true' if resume_resends else 'false'}")
     out.append(f"def repliesGuarded : Bool := {'true' if replies_guarded else 'false'}")
-    facts.update(underStyleSafe=under_safe, keypadRecorded=keypad_recorded, resumeResendsPen=resume_resends, repliesGuarded=replies_guarded,
+    out.append(f"def rgb8Guarded : Bool := {'true' if rgb8_guarded else 'false'}")
+    facts.update(underStyleSafe=under_safe, keypadRecorded=keypad_recorded, resumeResendsPen=resume_resends, repliesGuarded=replies_guarded, rgb8Guarded=rgb8_guarded,
                  sgr_on=on, sgr_off=off, mode_for_mouse=pairs)
 
     write("ModeLayout", "namespace Tickit.Gen.ModeLayout\n" + "\n".join(out) + "\nend Tickit.Gen.ModeLayout\n")
